@@ -188,6 +188,11 @@ pub fn v_edge(full: bool) -> Vec<Named> {
     v.push(n("plain(1)", "plain", Value::from_object(Plain(1))));
     v.push(n("plain(1)'", "plain", Value::from_object(Plain(1))));
     v.push(n("plain(2)", "plain", Value::from_object(Plain(2))));
+    // invalid values (what a failed lazy conversion leaves in a container)
+    let inv = |d: &'static str| Value::from(minijinja::Error::new(minijinja::ErrorKind::InvalidOperation, d));
+    v.push(n("invalid(a)", "invalid", inv("a")));
+    v.push(n("invalid(a)'", "invalid", inv("a")));
+    v.push(n("invalid(b)", "invalid", inv("b")));
     v
 }
 
